@@ -4,6 +4,8 @@ import (
 	"go/ast"
 	"go/constant"
 	"go/token"
+
+	"golang.org/x/tools/go/ssa"
 )
 
 // codeValuesAST folds the initialisers of the packets.Code globals: name -> code byte.
@@ -49,6 +51,52 @@ func (c *Ctx) codeValuesAST() map[string]int64 {
 					out[name.Name] = val
 				}
 			}
+		}
+	}
+	return out
+}
+
+// retGlobals: the packets.Code globals that fn can return as its first result (E4c constant flow:
+// through φ and through calls to module functions). An operand that is not a load of a global adds
+// the marker "?" (unknown).
+func (c *Ctx) retGlobals(fn *ssa.Function, depth int, seen map[*ssa.Function]bool) map[string]bool {
+	out := map[string]bool{}
+	if fn == nil || seen[fn] || depth > 4 {
+		return out
+	}
+	seen[fn] = true
+	var walk func(v ssa.Value, d int)
+	walk = func(v ssa.Value, d int) {
+		if d > 8 {
+			out["?"] = true
+			return
+		}
+		switch x := v.(type) {
+		case *ssa.UnOp:
+			if g, ok := x.X.(*ssa.Global); ok {
+				out[g.Name()] = true
+				return
+			}
+			out["?"] = true
+		case *ssa.Phi:
+			for _, e := range x.Edges {
+				walk(e, d+1)
+			}
+		case *ssa.Call:
+			if callee := x.Call.StaticCallee(); callee != nil && inModule(callee) {
+				for g := range c.retGlobals(callee, depth+1, seen) {
+					out[g] = true
+				}
+				return
+			}
+			out["?"] = true
+		default:
+			out["?"] = true
+		}
+	}
+	for _, r := range returns(fn) {
+		if len(r.Results) > 0 {
+			walk(rvs(r)[0], 0)
 		}
 	}
 	return out
